@@ -263,7 +263,16 @@ class JoinBarrier(FlowBase):
         if sim.h["cancel_req"] or status == st.PAUSED:
             return []
         if status not in COMPLETED:
-            return []  # C03 judges hanging
+            if status in (st.RUNNING, st.RESUMING) and not sim.h["pause_req"] and not sim.h["reruns"]:
+                # nothing in flight, nothing on offer, a join that can no longer be satisfied: hanging
+                return [{"kind": "hanging_with_partial_join",
+                         "sig": {"status": status, "after_partial_join_rerun": sim.h["rejoin"],
+                                 "resumed_while_pausing_with_items_in_flight": bool(
+                                     sim.h.get("resumed_while_pausing_items")),
+                                 "with_items_item_went_pending": bool(sim.h.get("item_went_pending"))},
+                         "detail": "workflow is %s with nothing to do while joins %s are partially satisfied" % (
+                             status, partial)}]
+            return []
         out = []
         if status == st.SUCCEEDED:
             out.append({
